@@ -73,7 +73,7 @@ def engine_runner(prop):
 
 
 RUNNERS = {'C10': runner_c10}
-for _p in ('C01', 'C02', 'C03', 'C05', 'C08'):
+for _p in ('C01', 'C02', 'C03', 'C05', 'C08', 'C19'):
     RUNNERS[_p] = engine_runner(_p)
 
 
